@@ -103,10 +103,10 @@ Example C03_nonvacuous_parse :
   = [k_ident [97%N]; k_op [60%N]; k_op [45%N]; k_ident [98%N]; k_op [60; 61]%N; k_ident [99%N]] /\
   wf ex_cfg (RBin 1 ex_a (ex_neg (RBin 2 ex_b ex_c))) = true /\
   parse ex_cfg ex_ids (flatten ex_cfg (RBin 1 ex_a (ex_neg (RBin 2 ex_b ex_c))))
-  = POk (AOp [60%N] 1 (AIdent [97%N]) (AUn [45%N] (AOp [60; 61]%N 2 (AIdent [98%N]) (AIdent [99%N])))) /\
+  = POk (AOp [60%N] 1 (AIdent [97%N] false) (AUn [45%N] (AOp [60; 61]%N 2 (AIdent [98%N] false) (AIdent [99%N] false)))) /\
   wf ex_cfg (RBin 2 (RBin 3 ex_a (ex_neg ex_b)) ex_c) = false /\
   parse ex_cfg ex_ids (flatten ex_cfg (RBin 2 (RBin 3 ex_a (ex_neg ex_b)) ex_c))
-  = POk (AOp [60; 60]%N 3 (AIdent [97%N]) (AUn [45%N] (AOp [60; 61]%N 2 (AIdent [98%N]) (AIdent [99%N])))).
+  = POk (AOp [60; 60]%N 3 (AIdent [97%N] false) (AUn [45%N] (AOp [60; 61]%N 2 (AIdent [98%N] false) (AIdent [99%N] false)))).
 Proof. vm_compute. repeat split. Qed.
 
 Print Assumptions C03_parse_complete.
